@@ -138,7 +138,9 @@ def main():
     fix_cases, fix_inputs = [], []
 
     def add_fix(sl, shape, in_domain):
-        res = call(fix_slice, sl if len(sl) != 1 or rng.random() < 0.5 else sl[0], shape)
+        # an integer index may be a numpy integer (the result of an argmax, an element of an index array): same normalisation
+        arg = tuple(rng.choice([np.int64, np.int32, np.intp])(i) if type(i) is int and rng.random() < 0.25 else i for i in sl)
+        res = call(fix_slice, arg if len(arg) != 1 or rng.random() < 0.5 else arg[0], shape)
         can = None if is_raise(res) else canon_items(res)
         fix_inputs.append((sl, shape, res))
         fix_cases.append("(%s, %s, %s)" % (c_items(sl), clist(shape), c_oitems(can)))
